@@ -18,7 +18,9 @@ EXTENDS GA
 
 RulesOut(h, n) == h.at = 0 /\ (h.lo > n \/ (h.hi >= 0 /\ h.hi < n))
 Ruled == \E i \in DOMAIN op.hints : RulesOut(op.hints[i], op.n)
-Exact == Len(op.got) = op.n /\ op.sawNone
+\* (the builders' own `extend' fills the slots from a source and stops; it never probes for a surplus: the
+\*  caller gets an array exactly when all N slots were filled, otherwise everything written is dropped)
+Exact == IF op.name = "builder_extend" THEN Len(op.got) = op.n ELSE Len(op.got) = op.n /\ op.sawNone
 
 \* every pulled item has been dropped exactly once (vacuous for element types without destructor)
 AllGotDropped == ~Tracked \/ op.gdropped = SeqRange(op.got)
